@@ -451,6 +451,10 @@ func (g *gen) families18() {
 	}
 	// adversarial extents: element counts / byte sizes that wrap around in 64-bit arithmetic
 	g.overflowFamily()
+	// parts of the ONNX schema the pinned tree ignores (sparse initializers, functions, training info, graph
+	// attributes ...): a tree that starts reading them must not start panicking on them
+	g.sparseFamily()
+	g.schemaFuzzFamily()
 	// B. the same single faults through the other readers (strided in quick)
 	stride := 7
 	if g.thorough() {
@@ -577,6 +581,49 @@ func (g *gen) opnameFamily() {
 		m2 := ChainModel()
 		m2.Nodes = append(m2.Nodes, mb.Node{Op: nm, In: []string{"y"}, Out: []string{"unused"}})
 		g.rawCase("opname", fmt.Sprintf("extra-last=%q", nm), m2.Bytes(), "bytes", true, "")
+	}
+	// unknown operators in other graph contexts: output names that collide with a Constant's, an initializer's, a
+	// graph input's or another node's output; no outputs; several outputs; after a Constant; no inputs
+	for _, nm := range []string{"Erf", "relu", "Identity", "NotAnOperator"} {
+		ctx := func(label string, mut func(m *mb.Model)) {
+			m := ChainModel()
+			mut(m)
+			g.rawCase("opname", fmt.Sprintf("%s=%q", label, nm), m.Bytes(), "bytes", true, "")
+		}
+		konst := mb.Node{Op: "Constant", Out: []string{"c"}, Attrs: []mb.Attr{mb.AFloats("value_floats", 1, 2)}}
+		ctx("same-output-as-constant", func(m *mb.Model) {
+			m.Nodes = append([]mb.Node{konst, {Op: nm, In: []string{"x"}, Out: []string{"c"}}}, m.Nodes...)
+		})
+		ctx("same-output-as-constant-before-it", func(m *mb.Model) {
+			m.Nodes = append([]mb.Node{{Op: nm, In: []string{"x"}, Out: []string{"c"}}, konst}, m.Nodes...)
+		})
+		ctx("same-output-as-initializer", func(m *mb.Model) {
+			m.Nodes = append([]mb.Node{{Op: nm, In: []string{"x"}, Out: []string{"W"}}}, m.Nodes...)
+		})
+		ctx("same-output-as-graph-input", func(m *mb.Model) {
+			m.Nodes = append([]mb.Node{{Op: nm, In: []string{"x"}, Out: []string{"x"}}}, m.Nodes...)
+		})
+		ctx("same-output-as-later-node", func(m *mb.Model) {
+			m.Nodes = append([]mb.Node{{Op: nm, In: []string{"x"}, Out: []string{"h"}}}, m.Nodes...)
+		})
+		ctx("same-output-as-graph-output-after-it", func(m *mb.Model) {
+			m.Nodes = append(m.Nodes, mb.Node{Op: nm, In: []string{"a"}, Out: []string{"y"}})
+		})
+		ctx("no-outputs", func(m *mb.Model) {
+			m.Nodes = append([]mb.Node{{Op: nm, In: []string{"x"}}}, m.Nodes...)
+		})
+		ctx("no-inputs-no-outputs", func(m *mb.Model) {
+			m.Nodes = append(m.Nodes, mb.Node{Op: nm})
+		})
+		ctx("three-outputs", func(m *mb.Model) {
+			m.Nodes = append([]mb.Node{{Op: nm, In: []string{"x"}, Out: []string{"p", "q", "r"}}}, m.Nodes...)
+		})
+		ctx("after-constant-consuming-it", func(m *mb.Model) {
+			m.Nodes = append([]mb.Node{konst, {Op: nm, In: []string{"c"}, Out: []string{"d"}}}, m.Nodes...)
+		})
+		ctx("only-node", func(m *mb.Model) {
+			m.Nodes = []mb.Node{{Op: nm, In: []string{"x"}, Out: []string{"y"}}}
+		})
 	}
 }
 
